@@ -371,7 +371,12 @@ class Adapt:
     def get_authors(self, title, revision=None):
         fqname = self.nshandler.get_fqname(title)
         if fqname in self.redirects:
-            res = self._get_authors(self.redirects.get(fqname, fqname))
+            # follow the whole chain, as _get_page does: the authors are stored under the final page
+            target, seen = fqname, set()
+            while target in self.redirects and target not in seen:
+                seen.add(target)
+                target = self.redirects[target]
+            res = self._get_authors(target)
         else:
             res = None
 
